@@ -87,6 +87,9 @@ def bounded_by_len(facts, idx, strict=True):
         sb, sc = lin(a)
         if (sb == ib and sc >= ic) or multiset_contains(sl, il):
             return True, f
+        # integers: S < L gives S + 1 <= L (the tail `[offset + 1 ..]` right behind `offset < map.len()`)
+        if not strict and op == "Lt" and sb == ib and sc + 1 >= ic:
+            return True, f
     return False, None
 
 
